@@ -189,14 +189,21 @@ let () =
         let trace =
           match Writer.init cfg with
           | Res.Ok st0 ->
-            Res.Ok (Writer.run_trace Syntax.fmt_obj Stored.fmt_sd_concrete Stored.id_cipher Stored.id_cipher
-                      fenc_table Stored.deflate_stored cfg st0 ops N0)
+            let ((st, refused), stop) =
+              Writer.run_lenient Syntax.fmt_obj Stored.fmt_sd_concrete Stored.id_cipher Stored.id_cipher
+                fenc_table Stored.deflate_stored cfg st0 ops N0 [] in
+            Res.Ok (st, refused, stop)
           | Res.Err e -> Res.Err e in
+        let refused_line refused =
+          if refused <> [] then
+            Printf.printf "%s refused %s\n" id (Stdlib.String.concat " " (Stdlib.List.map string_of_n refused)) in
         (match trace with
          | Res.Err c -> Printf.printf "%s result err init %s\n" id (cls_name c)
-         | Res.Ok (st, Some (i, c)) ->
-           Printf.printf "%s result err %s %s\n" id (string_of_n i) (cls_name c)
-         | Res.Ok (st, None) ->
+         | Res.Ok (st, refused, Some (i, c)) ->
+           Printf.printf "%s result err %s %s\n" id (string_of_n i) (cls_name c);
+           refused_line refused
+         | Res.Ok (st, refused, None) ->
+           refused_line refused;
            Printf.printf "%s result ok\n" id;
            Printf.printf "%s meta %s\n" id (string_of_n cfg.cv);
            let qrefs = ref [] in
